@@ -63,7 +63,7 @@ CHECKS = {
                 text="2710 (initialiser, shape, learnable, fold grouping, fold flag) configurations x BFS over compile (reset|update)^{<=2..3}: in every state after compile/reset each symbolic tensor's slice (read through the registry) must satisfy its own initialiser's constraints (exact constants, Dirichlet sums along the declared axis, bounds, moments on 64x64 tensors), dtype and requires_grad; resets redraw / restore",
                 note="moment clause is statistical (6 sigma, fixed seeds)"),
     "C18": dict(level="model_checking", engine="E2", tech=E2, design="3/C18",
-                text="explicit-state BFS over all histories up to depth 5 (thorough 6) of 13 context / compile / operator events (incl. compiling a chain-shaped and a DAG-shaped derived circuit before their operands) for 4 (thorough 8) pairs of context flag sets, one search shard per first event; each transition executes the real API inside contextvars.copy_context(); a reference model (context stack, per-context compiled maps, compile log) is stepped in lockstep; invariant in every state: active context and operator registry, memoisation, bijection, isolation, compile-once and operands-first, operator results equal to compiling the symbolic operator",
+                text="explicit-state BFS over all histories up to depth 5 (thorough 7) of 13 context / compile / operator events (incl. compiling a chain-shaped and a DAG-shaped derived circuit before their operands) for 4 (thorough 8) pairs of context flag sets, one search shard per first event; each transition executes the real API inside contextvars.copy_context(); a reference model (context stack, per-context compiled maps, compile log) is stepped in lockstep; invariant in every state: active context and operator registry, memoisation, bijection, isolation, compile-once and operands-first, operator results equal to compiling the symbolic operator",
                 note="re-entrancy of an active context object excluded by the property; _compile_circuit is counted by monkey-patching in the harness process"),
     "C19": dict(level="model_checking", engine="E2", tech=E2, design="3/C19",
                 text="BFS over save / update / reset / load-into-fresh-instance histories (depth 3, thorough 5) for operator pipelines x 4 configurations, also on partially frozen models and with the fresh instance in eval mode and evaluated before the load: after every load (strict=True) the freshly compiled operand and every derived circuit reproduce the recorded outputs (1e-12); in every state the learnable state-dict entries, nn.Parameters and compiled storage of learnable symbolic tensors are in bijection",
